@@ -209,7 +209,7 @@ class C18(Prop):
         if not alpha_only and L and rng.random() < 0.5:
             s = bytearray(s)
             for _ in range(rng.randrange(1, 4)):
-                s[rng.randrange(L)] = rng.choice(b" -.*0159@[`{~_")
+                s[rng.randrange(L)] = rng.choice(b" -.*0159@[`{~_\x80\xe9\xff")
             s = bytes(s)
         return s
 
@@ -404,6 +404,9 @@ class C18(Prop):
             # b700765: no K-byte scratch word when there are fewer than two K-mers (k = INT_MAX used to request 2 GB)
             {"name": "kmers-huge-k", "ops": ["seed s=4", "ckmers s=%s k=2147483647 ip=0" % hx(b"ACGTACGT"), "xkmers s=%s k=2147483647 ip=1" % hx([0, 1, 2, 3]),
                                              "ckmers s=- k=2147483647 ip=1", "xkmers s=%s k=1073741824 ip=0" % hx([3, 2, 1]), "peek"]},
+            # characters with the high bit set (negative chars) are not alphabetic: eslEINVAL from the three routines that validate, generator untouched
+            {"name": "highbit-dp-markov", "ops": ["seed s=6", "cshuffledp s=c3a9 ip=0", "cmarkov0 s=41e9 ip=0", "cmarkov1 s=414243ff ip=1", "cshuffledp s=41428043 ip=1",
+                                                  "cmarkov1 s=80 ip=0", "cmarkov0 s=ff41 ip=1", "peek"]},
             {"name": "alphabet-constants", "ops": ["abcinfo abc=dna", "abcinfo abc=amino"]},
             {"name": "same-seed-inplace", "ops": ["seed s=99", "cshuffle s=%s ip=0" % hx(b"ACGTACGTAC"), "seed s=99", "cshuffle s=%s ip=1" % hx(b"ACGTACGTAC"), "peek"]},
         ]
